@@ -29,6 +29,27 @@ TRUSTED_BASE = [
 ]
 
 
+HARNESS_DIR = os.path.dirname(os.path.abspath(__file__))
+
+
+def raised_in_harness(exc):
+    """True when the exception was raised by a line of the harness itself (not by implementation code the harness
+    called): the harness reaches into private attributes and module-level names of the implementation, and a
+    behaviour-preserving rewrite that renames one of them makes the *harness* fail with AttributeError/NameError/...
+    Such a failure is a broken tie (the property is no longer shown to hold), not a failing input."""
+    if not isinstance(exc, (AttributeError, NameError, TypeError, KeyError, ImportError, IndexError)):
+        return False
+    tb = exc.__traceback__
+    if tb is None:
+        return False
+    while tb.tb_next is not None:
+        tb = tb.tb_next
+    return os.path.abspath(tb.tb_frame.f_code.co_filename).startswith(HARNESS_DIR + os.sep)
+
+
+HARNESS_FAULT = "HarnessAttach"
+
+
 def setup_impl_path():
     """make `import conductor` resolve to the working tree under REPO"""
     if SRC not in sys.path:
